@@ -3,6 +3,7 @@ CONSTANTS
   Kind = "b"
   MaxOps = 3
   Gen = TRUE
+  Tx = FALSE
   Alphabet = "small"
 INVARIANTS IsMap QuerySound CandidatesSound NQUnique
 PROPERTIES StepProps
